@@ -138,7 +138,8 @@ class Gateway:
             ret = child_id in self.sensors[sensorid].children
             if not ret:
                 _LOGGER.warning("Child %s is unknown", child_id)
-        if not ret and AwesomeVersion(self.protocol_version) >= AwesomeVersion("2.0"):
+        # "2.0.0" >= "2.0" is False for AwesomeVersion, use not less than.
+        if not ret and not AwesomeVersion(self.protocol_version) < AwesomeVersion("2.0"):
             _LOGGER.info("Requesting new presentation for node %s", sensorid)
             msg = Message(gateway=self).modify(
                 node_id=sensorid,
